@@ -1,8 +1,8 @@
 (* C12 line protocol.  One job per line:
-   J nmsgs (ord type src time-or-N p1 sys dec)... navail (id)... ntr (s-or-N e-or-N abs nsel (ord)...)... ncalls (call)...
+   J nmsgs (ord type src time-or-N p1 sys dec)... navail (id)... ntr (s-or-N e-or-N abs nsel (ord)...)... nnonnan (ord)... ncalls (call)...
    call = ntypes-or-N (type)... s e abs nsrc-or-N (id)... ign max-or-N p1 sys order bytes idx num keep nan align natypes-or-N (type)...
    Output (one line): per call, tab-separated fields H (outcome after the history so far), F (same call on a fresh
-   loader), L (legacy model after the history), S0 (spec message ordinals, discovered sources), S1 (spec, all sources);
+   loader), L (legacy model after the history), S0 (spec message ordinals, discovered sources), S1 (spec, all sources), P (index pre-slice applied), X (index entries dropped by read-time tests);
    calls separated by a double bar *)
 let n_of_int i = match z_of_int i with Z0 -> N0 | Zpos p -> Npos p | Zneg _ -> N0
 let int_of_n n = match n with N0 -> 0 | Npos p -> int_of_pos p
@@ -41,7 +41,8 @@ let () =
           { m_ord = o; m_type = ty; m_src = src; m_time = tm; m_p1_some = p1; m_sys_some = sy; m_decodes = dec }) in
         let avail = next_list next_n in
         let tab = next_list (fun () -> let tr = next_tr () in let sel = next_list next_n in (tr, sel)) in
-        let env = concrete_env log avail tab in
+        let nonnan = next_list next_n in
+        let env = concrete_env log avail tab nonnan in
         let calls = next_list (fun () ->
           let types = next_optlist next_n in let tr = next_tr () in let src = next_optlist next_n in
           let ign = next_bool () in let mx = next_optz () in let p1 = next_bool () in let sy = next_bool () in
@@ -56,7 +57,8 @@ let () =
           let (_, f) = read_gen current env init_state a in
           st := s'; stl := sl';
           let sp b = String.concat "," (List.map (fun m -> string_of_int (int_of_n m.m_ord)) (spec_messages env a b)) in
-          Printf.sprintf "H=%s\tF=%s\tL=%s\tS0=%s\tS1=%s" (show o) (show f) (show ol) (sp false) (sp true)) calls in
+          let (ps, nd) = diag env a in
+          Printf.sprintf "H=%s\tF=%s\tL=%s\tS0=%s\tS1=%s\tP=%s\tX=%d" (show o) (show f) (show ol) (sp false) (sp true) (b2s ps) (int_of_nat nd)) calls in
         print_endline (String.concat " || " outs)
      | _ -> print_endline "?")
   done with End_of_file -> ()
